@@ -8,7 +8,7 @@ does not."""
 import ast
 from sa.lib import *
 from sa.forward import Forward, attribute_summary
-from sa.dataflow import Poly, cmp_key, cmp_atoms
+from sa.dataflow import cmp_negate, cmp_strip_nan, Poly, cmp_key, cmp_atoms
 from sa.resolve import walk_function
 
 LEDGERS = ("_holdings_quantity", "_holdings_margins", "_last_marking_to_market_price", "_last_accrual")
@@ -189,24 +189,48 @@ def marking_equations(ck, an, want: set):
         # margin-free contracts are skipped before any write; every other skip is the NaN-quote skip or the no-reference-yet skip
         skip_tests = []
         mreq_item = fa.sym.ev(ast.parse(f"{cvar}.margin_requirement", mode="eval").body, fa.node_of(loop.body[0]).id)     # the loop contract's margin requirement, by value id
+        item_k = loop_item(fa, loop).key()
+
+        def classify(p):
+            """which reviewed reason a skip condition (CMP form, as it stands on the skipping path) is"""
+            p = cmp_strip_nan(p)
+            if (p[0] == "rel" and p[1] == "==" and p[4] in (mreq_item, -mreq_item)) or (p[0] == "truthy" and not p[2] and p[1] == mreq_item.key()):
+                return "no-margin"
+            if p[0] == "truthy" and p[2] and "isnan(" in p[1] and ("liq_price(" in p[1] or "acq_price(-" in p[1]):
+                return "nan-quote"
+            if p[0] == "in" and not p[3] and p[2] == "self._last_marking_to_market_price" and p[1] == item_k:
+                return "no-reference"
+            return None
         kinds = {"no-margin": 0, "nan-quote": 0, "no-reference": 0}
+        # every way an iteration is cut short: under one of the three reviewed reasons (alone, or several joined by `or`), or in the
+        # KeyError handler of the reference-price lookup; guard clauses and nested forms alike
         for n in ast.walk(loop):
             if isinstance(n, (ast.Continue, ast.Break, ast.Return)):
                 sg = fa.syntactic_guards(n)
                 in_keyerror = any(isinstance(x, ast.ExceptHandler) and x.type is not None and "KeyError" in ast.unparse(x.type) for x in parents(n))
-                mr = [p for p in sg if (p[0] == "rel" and p[1] == "==" and p[4] in (mreq_item, -mreq_item)) or (p[0] == "truthy" and not p[2] and p[1] == mreq_item.key())]
-                nanq = [p for p in sg if p[0] == "truthy" and p[2] and "isnan(" in p[1] and ("liq_price(" in p[1] or "acq_price(-" in p[1])]
-                noref = [p for p in sg if p[0] == "in" and not p[3] and p[2] == "self._last_marking_to_market_price" and p[1] == loop_item(fa, loop).key()]      # `if contract not in references: continue`
-                if isinstance(n, ast.Continue) and len(sg) == 1 and mr:
-                    kinds["no-margin"] += 1
-                    skip_tests.append(next(x for x in parents(n) if isinstance(x, ast.If)).test)
-                elif isinstance(n, ast.Continue) and len(sg) == 1 and nanq:
-                    kinds["nan-quote"] += 1
-                elif isinstance(n, ast.Continue) and ((not sg and in_keyerror) or (len(sg) == 1 and noref)):
+                reasons = []
+                for p_ in sg:
+                    members = p_[1] if p_[0] == "or" else [p_]
+                    reasons.append([classify(m_) for m_ in members])
+                flat = [r_ for rs in reasons for r_ in rs]
+                if isinstance(n, ast.Continue) and len(sg) == 1 and flat and all(r_ is not None for r_ in flat):
+                    for r_ in flat:
+                        kinds[r_] += 1
+                    if "no-margin" in flat:
+                        skip_tests.append(next(x for x in parents(n) if isinstance(x, ast.If)).test)
+                elif isinstance(n, ast.Continue) and not sg and in_keyerror:
                     kinds["no-reference"] += 1
                 else:
                     ck.fail("GUARD", "S4.no-other-skip-in-marking", subj, fa.loc(n), f"marking_to_market skips contracts under {[cmp_key(p) for p in sg] or 'an unexpected path'}: positions would keep a stale margin / NLV",
                             construct=stmt_text(next((x for x in parents(n) if isinstance(x, ast.If)), n)))
+        # nested (positive) forms: the writes themselves sit under the negated reasons
+        for w_ in (margin_writes + cash_writes)[:1]:
+            for p_ in fa.path_guards(w_):
+                r_ = classify(cmp_strip_nan(cmp_negate(p_)))
+                if r_ is not None and kinds[r_] == 0:
+                    kinds[r_] += 1
+                    if r_ == "no-margin":
+                        skip_tests.append(next((x.test for x in parents(w_) if isinstance(x, ast.If)), None) or loop.iter)
         ck.check(kinds["nan-quote"] == 1, "GUARD", "S4.nan-quote-skipped", subj, fa.loc(loop), "a contract without a liquidation quote (NaN) is skipped, not marked with NaN",
                  f"{kinds['nan-quote']} NaN-quote skips in marking_to_market (expected exactly one `if isnan(liq_price): continue`)", construct="if np.isnan(liq_price): continue")
         ck.check(kinds["no-reference"] == 1, "GUARD", "S4.no-reference-skipped", subj, fa.loc(loop), "a contract never traded (no reference price) is skipped", f"{kinds['no-reference']} KeyError skips (expected one)",
